@@ -13,9 +13,11 @@ LEVEL = 'exploration'
 RULE = ('SQLite part: a case = initial values of 1-2 rows + 2-3 session scripts (session options default / immediate / '
         'serializable / optimistic=False; ops: 8 kinds of locking lookup, plain fetch, read attribute into a register, write '
         'attribute := register read from the same row in the same transaction + constant, or constant; flush; commit() in the '
-        'middle of the db_session; leaving and re-entering db_session on the same Database; end commit/rollback; three '
+        'middle of the db_session; leaving and re-entering db_session on the same Database; creating a new row; end '
+        'commit/rollback; four '
         'generators: free scripts, lock-read-rewrite against an early-reading writer, and two-transaction lockers that lock / '
-        'read / rewrite the same row again after their intermediate commit while another session changes it) + a schedule (one '
+        'read / rewrite the same row again after their intermediate commit while another session changes it, and sessions that '
+        'lock one row (or create an object) and rewrite ANOTHER row they read without lock while it is changed concurrently) + a schedule (one '
         'choice among runnable actors per operation) + a layout (Database per actor: lock conflicts fail with "database is '
         'locked"; one shared Database: lock conflicts wait on the provider lock). Oracle: (1) from the step in which a session '
         'locked a row (or, serializable, first touched it) until that TRANSACTION ends (commit, rollback, failure), no step of '
@@ -80,7 +82,7 @@ SESSIONS = [{}, {'immediate': True}, {'serializable': True}, {'optimistic': Fals
 
 def _strategies():
     from hypothesis import strategies as st
-    obj = st.sampled_from([0, 0, 0, 1])
+    obj = st.sampled_from([0, 0, 1])
     attr = st.integers(0, 2)
     reg = st.integers(0, 2)
     const = st.integers(1, 30)
@@ -89,7 +91,8 @@ def _strategies():
     write = st.tuples(st.just('write'), obj, attr, st.integers(0, 3), const).map(list)
     fetch = st.tuples(st.just('fetch'), obj).map(list)
     flush = st.just(['flush'])
-    body = st.one_of(read, read, read, write, write, write, fetch, flush, lock, read, write, st.sampled_from([['commit'], ['restart']]))
+    body = st.one_of(read, read, read, write, write, write, fetch, flush, lock, read, write, st.sampled_from([['commit'], ['restart']]),
+                     st.sampled_from([['create'], ['flush']]))
     rows = st.lists(st.lists(st.integers(0, 9), min_size=3, max_size=3), min_size=1, max_size=2)
     layout = st.sampled_from(['multi', 'multi', 'shared'])
     schedule = st.lists(st.integers(0, 2), min_size=12, max_size=30)
@@ -210,6 +213,43 @@ def relock_strategy():
     return build()
 
 
+def otherrow_strategy():
+    """a session reads row R2 without locking it, locks a DIFFERENT row R1 (or creates an object) and rewrites R2 from what it
+    read, while another session changes R2 and commits somewhere in between: holding a lock on one row must not switch off
+    the protection of the session's other rows"""
+    st, lock, read, write, body, rows, layout, schedule, end = _strategies()
+
+    @st.composite
+    def build(draw):
+        r2 = draw(st.integers(0, 1))
+        r1 = 1 - r2
+        a = draw(st.integers(0, 2))
+        nhow = len(c35_lib.LOCK_HOWS)
+        take = draw(st.sampled_from([[['lock', r1, draw(st.integers(0, nhow - 1))]], [['lock', r1, draw(st.integers(0, nhow - 1))]],
+                                     [['create']], [['create'], ['flush']]]))
+        early = draw(st.booleans())                  # lock before or after reading R2
+        rd = [['read', r2, a, 0]] + draw(st.sampled_from([[], [['read', r2, (a + 1) % 3, 1]]]))
+        wr = [['write', r2, draw(st.sampled_from([a, a, (a + 1) % 3])), 0, draw(st.integers(1, 30))]]
+        extra = draw(st.sampled_from([[], [['read', r1, a, 2], ['write', r1, a, 2, draw(st.integers(1, 30))]]]))
+        head = (take + rd) if early else rd
+        tail = ([] if early else take) + extra + wr
+        s_ops = head + tail
+        locker = {'session': draw(st.sampled_from([{}, {}, {'immediate': True}])) if not early else {}, 'ops': s_ops, 'end': 'commit'}
+        t_ops = [['read', r2, a, 1], ['write', r2, a, 1, draw(st.integers(1, 30))]]
+        writer = {'session': draw(st.sampled_from([{}, {}, {'optimistic': False}])), 'ops': t_ops, 'end': 'commit'}
+        actors = [locker, writer]
+        sch = [0] * len(head) + [1] * (len(t_ops) + 1) + [0] * (len(tail) + 1)
+        if draw(st.integers(0, 3)) == 0:
+            actors.append({'session': {}, 'ops': draw(st.lists(body, min_size=1, max_size=3)), 'end': draw(end)})
+            for pos in draw(st.lists(st.integers(0, len(sch)), max_size=4)):
+                sch.insert(pos, 2)
+        for pos, val in draw(st.lists(st.tuples(st.integers(0, len(sch) - 1), st.integers(0, 2)), max_size=2)):
+            sch[pos] = val
+        two_rows = [draw(st.lists(st.integers(0, 9), min_size=3, max_size=3)) for _ in range(2)]
+        return _cap_commits({'layout': draw(layout), 'rows': two_rows, 'actors': actors, 'schedule': sch})
+    return build()
+
+
 def pg_grid():
     cells = []
     for shape in range(len(c35_lib.PG_SHAPES)):
@@ -252,6 +292,8 @@ def run(ctx):
             ctx.run_test(t, {'case': race_strategy()}, max_examples=ctx.scale(400, 900), name='races')
         if ctx.violation is None:
             ctx.run_test(t, {'case': relock_strategy()}, max_examples=ctx.scale(250, 400), name='relock')
+        if ctx.violation is None:
+            ctx.run_test(t, {'case': otherrow_strategy()}, max_examples=ctx.scale(200, 400), name='otherrow')
     finally:
         env.close()
 
